@@ -445,13 +445,14 @@ func (w *world) minted(evs []abci.Event) (feeAmt, bondAmt *big.Int) {
 // ---------------------------------------------------------------- share class
 
 type scDump struct {
-	term     string
-	ids      []int64
-	due      int // entries completing at or before the block time
-	sameSec  int // entries of the current second completing later than the block time
-	released *big.Int
-	owed     *big.Int
-	blocked  int // entries whose recipient is a blocked address
+	term      string
+	ids       []int64
+	due       int // entries completing at or before the block time
+	sameSec   int // entries of the current second completing later than the block time
+	released  *big.Int
+	owed      *big.Int
+	blocked   int // entries whose recipient is a blocked address
+	slashLoss *big.Int
 }
 
 type scEntry struct {
@@ -498,19 +499,24 @@ func (w *world) dumpSC(ctx sdk.Context, now time.Time) scDump {
 		}
 	}
 	// what x/staking's end blocker will release to the module account in this block
+	var stTimes []string
+	loss := big.NewInt(0)
 	for _, v := range w.vals {
 		ubd, err := w.h.App.StakingKeeper.GetUnbondingDelegation(ctx, w.mod, v.Bytes)
 		if err != nil {
 			continue
 		}
 		for _, e := range ubd.Entries {
+			stTimes = append(stTimes, fmt.Sprint(e.CompletionTime.UnixNano()))
 			if !e.CompletionTime.After(now) {
 				d.released.Add(d.released, e.Balance.BigInt())
+				loss.Add(loss, new(big.Int).Sub(e.InitialBalance.BigInt(), e.Balance.BigInt()))
 			}
 		}
 	}
-	d.term = fmt.Sprintf("{| sc_queue := %s; sc_mod_bond := %s; sc_released := %s; sc_blocked := %s |}", emit.List(ts),
-		emit.Z(w.h.Bal(ctx, w.mod, bond).BigInt()), emit.Z(d.released), emit.List(blocked))
+	d.slashLoss = loss
+	d.term = fmt.Sprintf("{| sc_queue := %s; sc_mod_bond := %s; sc_released := %s; sc_staking_times := %s; sc_slash_loss := %s; sc_blocked := %s |}", emit.List(ts),
+		emit.Z(w.h.Bal(ctx, w.mod, bond).BigInt()), emit.Z(d.released), emit.List(stTimes), emit.Z(loss), emit.List(blocked))
 	return d
 }
 
